@@ -214,11 +214,32 @@ impl<S: BuildHasher + Clone + 'static> ExpirationMap<S> {
 
     pub fn try_cleanup(&self, now: Time) -> Result<Option<HashMap<u64, u64, S>>, CacheError> {
         let bucket_num = cleanup_bucket(now);
-        Ok(self
-            .buckets
-            .write()
-            .remove(&bucket_num)
-            .map(|bucket| bucket.map))
+        let mut m = self.buckets.write();
+
+        // A tick is not guaranteed to fall into every second (cleanup interval longer than the
+        // bucket width, busy processor), so hand out every bucket that is due, not only the one
+        // of the second that just ended; otherwise skipped buckets would never be reclaimed.
+        let due: Vec<i64> = m
+            .iter()
+            .map(|(num, _)| *num)
+            .filter(|num| *num <= bucket_num)
+            .collect();
+
+        let mut items: Option<HashMap<u64, u64, S>> = None;
+        for num in due {
+            if let Some(bucket) = m.remove(&num) {
+                match items.as_mut() {
+                    None => items = Some(bucket.map),
+                    Some(all) => {
+                        for (k, v) in bucket.map.iter() {
+                            all.insert(*k, *v);
+                        }
+                    }
+                }
+            }
+        }
+
+        Ok(items)
     }
 
     pub fn hasher(&self) -> S {
